@@ -109,9 +109,9 @@ def run(ctx):
     n = ctx.n(1600, 45000)
     for j in range(n):
         big = r.random() < 0.05
-        opts = gen.GenOpts(gated=ctx.gated, max_objects=300 if big else 60, p_key=r.choice([0.15, 0.3, 0.5]),
-                           p_child=0.9 if big else 0.6, dup=r.choice([0.0, 0.05, 0.15]))
-        nodes = gen.gen_document(r, opts)
+        opts = gen.GenOpts(gated=ctx.gated, max_objects=r.choice([150, 300, 500]) if big else 60, p_key=r.choice([0.15, 0.3, 0.5]),
+                           p_child=0.95 if big else 0.6, decay=1.0 if big else 0.6, dup=r.choice([0.0, 0.05, 0.15]))
+        nodes = gen.gen_document(r, opts, root="map" if big else None)
         nobj = sum(x.count() for x in nodes)
         depth = max(x.depth() for x in nodes)
         res.count(f"objects<={10 if nobj <= 10 else 50 if nobj <= 50 else 100 if nobj <= 100 else 300}")
